@@ -341,7 +341,7 @@ func genCase(t *rapid.T, rec *kit.Recorder) *Case {
 // substitutes that are a deterministic injection over the instance lifetime.
 func TestC17(t *testing.T) {
 	rec := kit.Get("C17")
-	rapid.Check(t, func(rt *rapid.T) {
+	runRapid(t, func(rt *rapid.T) {
 		c := genCase(rt, rec)
 		msg, st := Verdict(c)
 		mode := "encrypt_all"
@@ -597,4 +597,19 @@ func TestKnownC17(t *testing.T) {
 	} else {
 		fmt.Printf("KNOWN-GONE key=list-mode-key-collision (verdict: %q)\n", msg)
 	}
+}
+
+// runRapid is rapid.Check, except inside FuzzRapid, where the property is fed
+// from the bytes of Go's coverage-guided fuzzer (rapid.MakeFuzz): the same
+// generator and oracle, steered by the branch coverage of the processor.
+var runRapid = func(t *testing.T, prop func(*rapid.T)) { rapid.Check(t, prop) }
+
+func FuzzRapid(f *testing.F) {
+	for i := 0; i < 32; i++ {
+		f.Add(kit.SeedBytes(fmt.Sprintf("C17/%d", i), 16384))
+	}
+	f.Fuzz(func(t *testing.T, data []byte) {
+		runRapid = func(_ *testing.T, prop func(*rapid.T)) { rapid.MakeFuzz(prop)(t, data) }
+		TestC17(t)
+	})
 }
